@@ -47,15 +47,26 @@ impl WalPathManager {
         self.ensure_root()?;
         let file_name = now_millis_str();
         let path = self.root.join(&file_name);
+        #[cfg(walrus_verif)]
+        {
+            crate::wal::verif::fault_io("create_file")?;
+            crate::wal::verif::io_event("create", &path.to_string_lossy(), 0, 0);
+        }
         let f = std::fs::File::create(&path)?;
+        #[cfg(walrus_verif)]
+        crate::wal::verif::io_event("set_len", &path.to_string_lossy(), 0, MAX_FILE_SIZE);
         f.set_len(MAX_FILE_SIZE)?;
 
         // Sync file metadata (size, etc.) to disk
+        #[cfg(walrus_verif)]
+        crate::wal::verif::io_event("fsync", &path.to_string_lossy(), 0, 0);
         f.sync_all()?;
 
         // CRITICAL for Linux: Sync parent directory to ensure directory entry is durable
         // Without this, the file might exist but not be visible in directory listing after crash
         let dir = std::fs::File::open(&self.root)?;
+        #[cfg(walrus_verif)]
+        crate::wal::verif::io_event("dirsync", &self.root.to_string_lossy(), 0, 0);
         dir.sync_all()?;
 
         Ok(path.to_string_lossy().into_owned())
